@@ -70,6 +70,10 @@ func c01Digest(c *ctx, pr *Protocol) {
 	for _, s := range pr.Rounds[0].Sends {
 		n++
 		facts := core.TFactsAt(s.Send.Block(), 1)
+		if s.At != nil && s.At.Block() != s.Send.Block() {
+			// the send sits in a private helper of Start: what dominates the helper's call dominates it
+			facts = append(append([]core.TFact{}, facts...), core.TFactsAt(s.At.Block(), 1)...)
+		}
 		if core.PossibleCmp(facts, isM, core.IsCurveOrder)&(core.EQ|core.GT) != 0 {
 			bad += fmt.Sprintf("the send at %s is reachable with m >= N; ", c.pos(s.Send))
 		}
